@@ -567,6 +567,13 @@ def checkModuleTree (g0 : Graph) (ms : List Module) : Res Outcome :=
       | .err e => .err e
       | .ok st => .ok ⟨st.g, mods, st.probes⟩
 
+/-- `FileTree::file_spec` / `single_file` / `directory`: the first file of a
+    tree is the package root, its module is called `pkg` whatever the file is
+    called -/
+def packageRoot : List Module → List Module
+  | [] => []
+  | m :: rest => { m with ident := PKG } :: rest
+
 /-! ## exported names -/
 
 /-- `ScopeGraph::module_name`: identifiers from the root module down. -/
